@@ -940,6 +940,14 @@ func (fr *Frame) pseudoSinkKind(kind string, in ssa.Instruction, args []TV, st *
 		var recs []rec
 		for _, b := range fr.fn.Blocks {
 			for ii, i2 := range b.Instrs {
+				if kind == "append" {
+					if cl, ok := i2.(*ssa.Call); ok {
+						if bi, ok := cl.Call.Value.(*ssa.Builtin); ok && bi.Name() == "append" {
+							recs = append(recs, rec{i2, i2.Pos(), b.Index, ii})
+						}
+					}
+					continue
+				}
 				s2, ok := i2.(*ssa.Store)
 				if !ok {
 					continue
